@@ -4,6 +4,8 @@ package store
 
 import (
 	"crypto/sha256"
+	"os"
+	"path/filepath"
 	"time"
 )
 
@@ -55,9 +57,6 @@ func VP_C01_History() {
 		switch vpChoose("op", 4) {
 		case 0: // add
 			pw := pws[0]
-			if vpTier() == 1 {
-				pw = pws[vpChoose("pw", 2)]
-			}
 			admin := vpChoose("admin", 2) == 1
 			lo := time.Now().Unix()
 			err := d.AddUser(u, pw, admin)
@@ -172,6 +171,96 @@ func VP_C01_LongPasswords() {
 	for _, c := range cands {
 		ok, _, _, _, _ := d.Authenticate("u", c)
 		vpAssert("long-near-miss-never-authenticates", ok == vpSameKey(def, c, pw))
+	}
+	vpCover("end")
+}
+
+// VP_C01_FailedOperationKeepsVerdict: an operation that fails for an environmental reason (the
+// work area cannot be used, or exactly one file-system call of the operation fails) leaves every
+// verdict as the last acknowledged write defined it; one that succeeds nevertheless takes effect.
+func VP_C01_FailedOperationKeepsVerdict() {
+	base := vpMkStoreDir()
+	def := uint(1 + vpChoose("default-set", 2))
+	d := vpNewDir(base, def)
+	pw0, pw1 := vpStr("pw0", 2), vpStr("pw1", 2)
+	admin := vpChoose("admin", 2) == 1
+	if d.AddUser("a", pw0, admin) != nil {
+		panic("setup")
+	}
+	inject := vpChoose("obstruction", 2) == 1
+	if !inject {
+		// the work area is a regular file: no temporary file can be created
+		os.RemoveAll(filepath.Join(base, ".tmp"))
+		if os.WriteFile(filepath.Join(base, ".tmp"), []byte("x"), 0600) != nil {
+			panic("setup")
+		}
+	}
+	op := vpChoose("op", 3)
+	var err error
+	if inject {
+		vpFaultArm()
+	}
+	switch op {
+	case 0:
+		err = d.UpdateUser("a", pw1)
+	case 1:
+		err = d.AddUser("b", pw1, false)
+	case 2:
+		err = d.SetAdmin("a", !admin)
+	}
+	tag := ""
+	if inject {
+		vpFaultDisarm()
+		call := vpFaultWhere()
+		for i := 0; i < len(call); i++ {
+			if call[i] == '#' {
+				call = call[:i]
+				break
+			}
+		}
+		tag = "model: (failing call: " + call + ") "
+	}
+	ex, adm, eerr := d.Exists("a")
+	ok0, _, _, _, _ := d.Authenticate("a", pw0)
+	ok1, _, _, _, _ := d.Authenticate("a", pw1)
+	okb, _, _, _, _ := d.Authenticate("b", pw1)
+	if inject {
+		// the outcome is part of the assertion's identity: "the change is completely in place but
+		// an error is returned" (a recorded finding) is told apart from any other wrong outcome
+		exb, _, _ := d.Exists("b")
+		unchanged := ex && adm == admin && ok0 && !exb
+		complete := false
+		switch op {
+		case 0:
+			complete = ex && adm == admin && ok1
+		case 1:
+			complete = okb && ex && adm == admin && ok0
+		case 2:
+			complete = ex && adm == !admin && ok0
+		}
+		outcome := "other"
+		if unchanged {
+			outcome = "unchanged"
+		} else if complete {
+			outcome = "complete"
+		}
+		tag = tag[:len(tag)-2] + ", outcome: " + outcome + ") "
+	}
+	vpAssert(tag+"user-still-exists", eerr == nil && ex)
+	switch op {
+	case 0:
+		if err != nil {
+			vpAssert(tag+"failed-update-keeps-the-old-password", ok0 && ok1 == vpSameKey(def, pw1, pw0))
+		} else {
+			vpAssert(tag+"acknowledged-update-takes-effect", ok1 && ok0 == vpSameKey(def, pw0, pw1))
+		}
+		vpAssert(tag+"update-keeps-the-admin-flag", adm == admin)
+	case 1:
+		vpAssert(tag+"add-authenticates-iff-acknowledged", okb == (err == nil))
+		vpAssert(tag+"other-user-unaffected-by-add", ok0 && adm == admin)
+	case 2:
+		vpAssert(tag+"admin-flag-changes-iff-acknowledged", (adm == !admin) == (err == nil))
+		vpAssert(tag+"set-admin-keeps-the-password", ok0)
 	}
 	vpCover("end")
 }
